@@ -165,6 +165,11 @@ func (c *Converter) ExpandUpdateKeysAsLeaf(ctx context.Context, upd *sdcpb.Updat
 
 func (c *Converter) ExpandContainerValue(ctx context.Context, p *sdcpb.Path, jv any, cs *sdcpb.SchemaElem_Container, includeKeysAsLeaf bool) ([]*sdcpb.Update, error) {
 	log.Debugf("expanding jsonVal %T | %v | %v", jv, jv, p)
+	if p == nil {
+		// an update addressed at the root comes without a path; the members' paths are
+		// built by cloning p and appending to the clone, which needs a path to clone
+		p = &sdcpb.Path{}
+	}
 	switch jv := jv.(type) {
 	case string:
 		v := strings.Trim(jv, "\"")
